@@ -241,6 +241,9 @@ def concrete_reach(conds, obligations):
     for c in conds:
         if c.twin or c.sample_args is None:
             continue
+        o = by.get(c.oid)
+        if o is not None and o.verdict == INCONCLUSIVE and o.detail.startswith('not explored'):
+            continue
         groups.setdefault(c.module, []).append(c)
 
     def work(item):
